@@ -1,8 +1,8 @@
 (** Theorems about the GENERATED impedance definitions (Gen/Gen_Imp.v, regenerated from src/Z on
     every run): for every field, every interpretation of the leaves and every sample count, the
     generated constructors are the documented vectors (Model/ImpedanceSpec.v) with the loops of
-    Model/Impedance.v, the generated operator+= is [add_into], and the generated factory is the
-    pointwise sum of the selected contributions with the documented arguments. *)
+    Model/Impedance.v and the generated operator+= is [add_into].  (The generated factory branches on
+    order tests, which have a meaning only in an ordered field: Proofs/ImpedanceGenRP.v.) *)
 From Coq Require Import List ZArith Lia Bool ZifyBool Ring Field.
 From Inovesa Require Import Base.FieldKit Model.Impedance Model.ImpKit Model.ImpedanceSpec
   Proofs.ImpedanceP Gen.Gen_Imp.
@@ -297,46 +297,4 @@ Section GenP.
     rewrite <- Ha, <- Hx. clearbody sa sx. unfold two. rewrite !(Field_theory.Fdiv_def (@Fth K)). ring.
   Qed.
 
-  (** *** vfps::makeImpedance: the pointwise sum of the selected contributions, each built with
-      the documented arguments, or nothing - for arbitrary constructors of the four models *)
-  Ltac args_eq :=
-    match goal with
-    | |- ?x = ?x => reflexivity
-    | |- @eq (car K) _ _ => first [reflexivity | field; nz]
-    | |- _ => f_equal; args_eq
-    end.
-
-  Section Factory.
-    Variable PPc : Z -> K -> K -> K -> list C.
-    Variable FSc : Z -> K -> K -> list C.
-    Variable RWc : Z -> K -> K -> K -> K -> K -> K -> list C.
-    Variable COLLc : Z -> K -> K -> K -> list C.
-
-    Theorem gen_factory_with n fmax R_bend frev gap use_csr s xi rc file :
-      (0 <= n)%Z -> R_bend <> 0 -> frev <> 0 -> l_pi E <> 0 ->
-      makeImpedance_with K E PPc FSc RWc COLLc n fmax R_bend frev gap use_csr s xi rc file =
-      sp_factory_with E PPc FSc RWc COLLc n fmax R_bend frev gap use_csr s xi rc file.
-    Proof.
-      intros Hn HR Hf Hpi.
-      unfold makeImpedance_with, sp_factory_with, g_any_selected, g_parts, g_sel_pp, g_sel_fs, g_sel_csr,
-        g_sel_rw, g_sel_coll.
-      cbv zeta. rewrite gen_zeros, (zero_vec_sum C c0 (l_cadd E) n).
-      set (radius := l_ab E (gap / (1 + 1))).
-      replace (sp_radius E gap) with radius by (unfold radius, sp_radius, two; reflexivity).
-      destruct (l_eqb E gap 0); destruct use_csr; destruct (l_ltb E 0 gap);
-        destruct (l_ltb E 0 s && l_leb E (- (1)) xi)%bool;
-        destruct (l_ltb E 0 rc && l_ltb E rc radius)%bool;
-        destruct file as [d|]; cbn [andb orb negb app deref_add file_given file_data fst snd];
-        rewrite ?gen_add_assign; rewrite ?add_into_sum by exact Hn; cbn [app];
-        try reflexivity; unfold sp_f0, two; args_eq.
-    Qed.
-  End Factory.
-
-  (** ... in particular with the generated constructors of the closed-form models *)
-  Theorem gen_factory n fmax R_bend frev gap use_csr s xi rc file :
-    (0 <= n)%Z -> R_bend <> 0 -> frev <> 0 -> l_pi E <> 0 ->
-    makeImpedance K E n fmax R_bend frev gap use_csr s xi rc file =
-    sp_factory_with E (l_PP E) (FreeSpaceCSR_ctor K E) (ResistiveWall_ctor K E) (CollimatorImpedance_ctor K E)
-                    n fmax R_bend frev gap use_csr s xi rc file.
-  Proof. intros. unfold makeImpedance. apply gen_factory_with; assumption. Qed.
 End GenP.
